@@ -2,6 +2,7 @@ package harness
 
 import (
 	"context"
+	"errors"
 	"fmt"
 	"time"
 
@@ -19,6 +20,7 @@ type PlanC12 struct {
 	ReaderPauseMs int       `json:"reader_pause_ms"` // receiver starts this late
 	SendCtxMs     int       `json:"send_ctx_ms"`     // per-send context deadline, 0 = none
 	RecvCtxMs     int       `json:"recv_ctx_ms"`     // per-receive context deadline, 0 = none
+	RecvRetry     int       `json:"recv_retry"`      // how often the receiver calls Receive again after a receive context expired
 	SendGapMs     int       `json:"send_gap_ms"`     // pause between sends
 	Family        string    `json:"family"`
 }
@@ -57,6 +59,11 @@ func genC12(t *simrt.Tape, tier string) interface{} {
 	if !benign && t.Draw(4) == 0 {
 		p.RecvCtxMs = []int{50, 2000, 7000, 20000}[t.Draw(4)]
 	}
+	if t.Draw(5) == 0 {
+		// a receiver that polls: short receive contexts, Receive called again after each expiry
+		p.RecvCtxMs = []int{1, 50, 700, 2000}[t.Draw(4)]
+		p.RecvRetry = 1 + t.Draw(12)
+	}
 	if t.Draw(4) == 0 {
 		p.SendGapMs = []int{1, 100, 5200}[t.Draw(3)]
 	}
@@ -81,6 +88,23 @@ var sweepCache = map[string][]*PlanC12{}
 
 func c12SweepStream() []EnvSpec {
 	return []EnvSpec{{Kind: KMessage, Seed: 11, Size: 20}, {Kind: KRequest, Seed: 5, Size: 12}, {Kind: KNotification, Seed: 3, Size: 0}}
+}
+
+// c12RetryStream is a two-envelope stream whose first envelope is a message with an
+// envelope-shaped JSON document as content (found by searching the generator's seeds).
+func c12RetryStream() []EnvSpec {
+	for seed := uint32(1); seed < 5000; seed++ {
+		s := EnvSpec{Kind: KMessage, Seed: seed, Size: 12}
+		e := BuildEnvelope(s, "e0")
+		if d, ok := e.Msg.Content.(*lime.JsonDocument); ok && e.Msg.Type.IsJson() {
+			if _, ok := (*d)["id"]; ok && len(*d) <= 4 && EncodedLen(e) < 260 {
+				if _, ok := (*d)["method"]; ok {
+					return []EnvSpec{s, {Kind: KNotification, Seed: 3, Size: 0}}
+				}
+			}
+		}
+	}
+	panic("no envelope-shaped payload in the generator")
 }
 
 func c12Sweep(tier string) []*PlanC12 {
@@ -153,6 +177,21 @@ func c12Sweep(tier string) []*PlanC12 {
 			p.Faults.Stalls = []StallS{{AfterBytes: int64(k), ForMs: ms}}
 			out = append(out, p)
 		}
+	}
+	// a stall longer than the receive context at every offset of a stream whose first envelope
+	// carries an envelope-shaped JSON payload; the receiver calls Receive again after the expiry
+	rs := c12RetryStream()
+	RL := 0
+	for i, s := range rs {
+		RL += EncodedLen(BuildEnvelope(s, fmt.Sprintf("e%d", i)))
+	}
+	for k := 1; k < RL; k++ {
+		p := base("stall-retry")
+		p.Envs = rs
+		p.Faults.Stalls = []StallS{{AfterBytes: int64(k), ForMs: 3000}}
+		p.RecvCtxMs = 1000
+		p.RecvRetry = 6
+		out = append(out, p)
 	}
 	if tier == "thorough" {
 		// the same split and cut sweeps under TLS (offsets then count TLS bytes, including the handshake)
@@ -251,6 +290,7 @@ func runC12(w *World, pi interface{}) {
 		if p.ReaderPauseMs > 0 {
 			time.Sleep(time.Duration(p.ReaderPauseMs) * time.Millisecond)
 		}
+		retries := 0
 		for len(received) < len(envs) {
 			ctx, cancel := context.WithTimeout(context.Background(), 150*time.Minute)
 			if p.RecvCtxMs > 0 {
@@ -258,7 +298,15 @@ func runC12(w *World, pi interface{}) {
 				ctx, cancel = context.WithTimeout(context.Background(), time.Duration(p.RecvCtxMs)*time.Millisecond)
 			}
 			env, err := receiver.Receive(ctx)
+			expired := ctx.Err() != nil
 			cancel()
+			if err != nil && expired && errors.Is(err, context.DeadlineExceeded) && retries < p.RecvRetry && receiver.Connected() {
+				// the failed operation reported its error; whatever a later Receive on the same
+				// transport hands out must still be the next envelope that was sent
+				retries++
+				w.Count("recv-again-after-context-expiry")
+				continue
+			}
 			if err != nil {
 				recvErr = err
 				w.Count("recv-failed")
@@ -307,9 +355,9 @@ func runC12(w *World, pi interface{}) {
 
 func init() {
 	register(&PropDef{
-		ID:  "C12",
-		New: func() interface{} { return &PlanC12{} },
-		Gen: genC12,
+		ID:       "C12",
+		New:      func() interface{} { return &PlanC12{} },
+		Gen:      genC12,
 		SweepLen: func(tier string) int { return len(c12Sweep(tier)) },
 		SweepPlan: func(tier string, i int) interface{} {
 			p := *c12Sweep(tier)[i]
@@ -317,8 +365,8 @@ func init() {
 		},
 		Run:    runC12,
 		MaxSim: 4 * time.Hour,
-		Rule: "plans = (envelope stream from the rich generator, TLS on/off, direction, per-direction fault plan: fragmentation mode, latency list, send-buffer capacity, stalls, cut offset+kind, reader pause, send/receive context deadlines); " +
-			"systematic families (every split point, pairs of split points, every cut offset x FIN/RST, every short-write length with a write timeout, every coalescing boundary, stalls around the 5 s poll) are enumerated first, then random plans; " +
+		Rule: "plans = (envelope stream from the rich generator, TLS on/off, direction, per-direction fault plan: fragmentation mode, latency list, send-buffer capacity, stalls, cut offset+kind, reader pause, send/receive context deadlines, a polling receiver that calls Receive again after a receive context expired); " +
+			"systematic families (every split point, pairs of split points, every cut offset x FIN/RST, every short-write length with a write timeout, every coalescing boundary, stalls around the 5 s poll, a stall longer than the receive context at every offset of a stream with an envelope-shaped JSON payload followed by Receive again) are enumerated first, then random plans; " +
 			"a run is non-trivial when both real transports connected (and upgraded to TLS when asked) and at least one Send was attempted; distinct = distinct (plan JSON, event-log hash) pairs",
 	})
 }
